@@ -373,7 +373,8 @@ def check_transmission(case):
     ws = b.wmax - b.wmin
     # which choppers has a neutron reaching D passed?  the program chops all choppers in distance order,
     # FrameSequence[D] takes the last frame with distance <= D
-    passed = [sp for sp in b.spec if sp[0] <= D]
+    # (tolerant comparison: a distance given in cm and converted back may differ by an ulp)
+    passed = [sp for sp in b.spec if sp[0] <= D * (1 + 1e-12) + 1e-300]
     if case["lookup"] is not None:
         # frames appended by propagate_to beyond D are ignored by the lookup; choppers at d <= D all count
         pass
